@@ -3,7 +3,8 @@
 import json, subprocess, sys, os
 V = os.path.dirname(os.path.dirname(os.path.abspath(__file__)))
 props = json.loads(subprocess.check_output([os.path.join(V, "bin/hsdkcheck"), "-props"]))
-claimed = {p["id"]: p for p in props}
+pending = json.load(open(os.path.join(V, "tools/pending.json")))
+claimed = {p["id"]: p for p in props if p["id"] not in pending}
 allids = [json.loads(l)["id"] for l in open(os.path.join(V, "properties.jsonl"))]
 na_reasons = json.load(open(os.path.join(V, "tools/not_applicable.json")))
 checks = []
@@ -26,7 +27,7 @@ for pid in allids:
         "level_note": "Trusted base: go/types, x/tools go/ssa v0.29.0, the rule tables in /verif/checker/props_*.go (read against the source and frozen), third-party libraries as specified. Decides structural necessary conditions of the property for all paths/inputs/schedules; does not decide the behavioural statement as a whole. Assumptions: " + "; ".join(p.get("assume") or ["none"]),
         "technique": p.get("technique") or "custom SSA/CFG static analysis (dominance, must-pass-through, guard-predicate tables, locksets, def-use) over go/packages+go/ssa",
     })
-na = [{"property_id": pid, "reason": na_reasons.get(pid, "no structural clause of this property could be armed soundly with the static analyses in reach (see DESIGN.md section 5.0)")} for pid in allids if pid not in claimed]
+na = [{"property_id": pid, "reason": pending.get(pid) or na_reasons.get(pid, "no structural clause of this property could be armed soundly with the static analyses in reach (see DESIGN.md section 5.0)")} for pid in allids if pid not in claimed]
 m = {
     "version": 1,
     "setup_cmd": "./setup.sh",
